@@ -458,7 +458,11 @@ func (w *World) CheckSweep(out *Outcome, runs []*Obs) []Violation {
 		first := outcome(runs[0]) == "ok"
 		for _, o := range runs[1:] {
 			if (outcome(o) == "ok") != first {
-				vs = append(vs, v("C10", "outcome-varies-with-order", "", fmt.Sprintf("no point of the program is tied, yet run %s ended %s (%s%s) and run %s ended %s (%s%s)",
+				oracle := "outcome-varies-with-order"
+				if subst && w.staleVersionPattern(runs) {
+					oracle = "outcome-varies-under-substitution"
+				}
+				vs = append(vs, v("C10", oracle, "", fmt.Sprintf("no point of the program is tied, yet run %s ended %s (%s%s) and run %s ended %s (%s%s)",
 					label(runs[0]), outcome(runs[0]), runs[0].ErrText, runs[0].Panic, label(o), outcome(o), o.ErrText, o.Panic)))
 				break
 			}
@@ -481,8 +485,20 @@ func (w *World) CheckSweep(out *Outcome, runs []*Obs) []Violation {
 			}
 			for _, pt := range w.Types[i.Type].Points {
 				r := out.Res[i.ID][pt.Field]
-				a := sortedCopy(ref.Points[i.ID][pt.Field])
-				b := sortedCopy(o.Points[i.ID][pt.Field])
+				// compare components, not versions: which version is published is C01/C03's business
+				comp := func(xs []string) []string {
+					var out []string
+					for _, x := range xs {
+						if c := w.componentOf(x); c != "" {
+							out = append(out, c)
+						} else {
+							out = append(out, x)
+						}
+					}
+					return sortedCopy(out)
+				}
+				a := comp(ref.Points[i.ID][pt.Field])
+				b := comp(o.Points[i.ID][pt.Field])
 				if r.Tied {
 					continue
 				}
@@ -493,4 +509,48 @@ func (w *World) CheckSweep(out *Outcome, runs []*Obs) []Violation {
 		}
 	}
 	return vs
+}
+
+// staleVersionPattern recognises the D9 history: every failing run of the sweep failed in
+// the creation of a component N that (a) had been substituted by a post-processor around
+// initialization in that run and (b) had an early reference outstanding (its early factory
+// had been invoked) - i.e. the stale-version protection demanded by C03 fired, and whether
+// it has to fire depends on which member of a cycle is created first.
+func (w *World) staleVersionPattern(runs []*Obs) bool {
+	failing := 0
+	for _, o := range runs {
+		if o.OK() {
+			continue
+		}
+		if o.Panic != "" {
+			return false
+		}
+		failing++
+		// first failing creation
+		first := ""
+		for _, c := range o.Reg {
+			if c.Op == "goc-exit" && c.Err {
+				first = c.Name
+				break
+			}
+		}
+		if first == "" {
+			return false
+		}
+		early, sub := false, false
+		for _, c := range o.Reg {
+			if c.Op == "ef" && c.Name == first {
+				early = true
+			}
+		}
+		for _, e := range o.Events {
+			if e.Kind == "subst" && e.Subj == first && !strings.HasPrefix(e.Detail, "early@") {
+				sub = true
+			}
+		}
+		if !early || !sub {
+			return false
+		}
+	}
+	return failing > 0
 }
